@@ -16,6 +16,15 @@ SCRATCH = os.path.join(ROOT, "repo")
 EVD = os.path.join(ROOT, "evidence")
 
 
+SNAP = os.path.join(ROOT, "verif")
+
+
+def snapshot_checker():
+    """The checker itself is snapshotted too, so that rule files can be edited while a self-test runs."""
+    shutil.rmtree(SNAP, ignore_errors=True)
+    shutil.copytree(VERIF, SNAP, ignore=shutil.ignore_patterns("build", "evidence", ".git", "seeded", "__pycache__", "*.log", "last_result.json"))
+
+
 def fresh_copy():
     shutil.rmtree(SCRATCH, ignore_errors=True)
     os.makedirs(SCRATCH)
@@ -68,6 +77,7 @@ def main():
     props = set(a.upper() for a in args)
     os.makedirs(EVD, exist_ok=True)
     fresh_copy()
+    snapshot_checker()
     res = []
     try:
         for m in MUTANTS:
@@ -78,7 +88,7 @@ def main():
             apply(m)
             t0 = time.time()
             env = dict(os.environ, BSA_EVIDENCE_DIR=EVD)
-            r = subprocess.run([os.path.join(VERIF, "check"), m["prop"], "--tier", "quick", "--repo", SCRATCH], env=env,
+            r = subprocess.run([os.path.join(SNAP, "check"), m["prop"], "--tier", "quick", "--repo", SCRATCH], env=env,
                                stdout=subprocess.PIPE, stderr=subprocess.STDOUT, text=True)
             out = r.stdout
             revert(m)
